@@ -244,8 +244,24 @@ func fbb.(*Session).handshake(s, rw) (err)
   props C03
   requires sess: SessOK(s) && rw != nil && len(s.localFW) >= 1
 
+# C04: the decompressed message is returned only after the decompressor's own
+# integrity verdict (Close: CRC-16 and declared size) on the very reader that
+# produced the bytes, and that reader was built over the received data.
+ghost var gCopySrc int
+ghost var gPayloadBytes int
+ghost var gCopyErr error
+ghost var gClosed bool
+ghost var gCloseErr error
+
 func fbb.(*Proposal).data(p) (data, err)
   props C03 C04
+  call bytes.NewBuffer requires received-data: same($0, p.compressedData)
+  call io.Copy set gCopySrc := $1.$val
+  call io.Copy set gCopyErr := $r1
+  call io.ReadCloser.Close requires same-reader: $0.$val == gCopySrc
+  call io.ReadCloser.Close set gClosed := true
+  call io.ReadCloser.Close set gCloseErr := $r0
+  at return requires verdict: $r1 == nil ==> gClosed && gCloseErr == nil && gCopyErr == nil
 
 func fbb.(*Proposal).Message(p) (m, err)
   props C03 C04
@@ -255,27 +271,111 @@ func fbb.(*Message).ReadFrom(m, r) (err)
   props C03 C09
   requires reader: r != nil
 
+# C04 block verdict: nil is returned only if the running checksum including the
+# checksum byte is zero, the payload length equals the proposed compressed size,
+# the header length byte equals the actual header length and the offset is the
+# one that was requested.  C17: the progress count is published atomically.
 func fbb.(*Session).readCompressed(s, rw, p) (err)
   props C03 C04 C17
   requires sess: SessOK(s) && rw != nil && p != nil
+  # gPayloadBytes: payload bytes read from the wire inside STX blocks
+  call bufio.(*Reader).ReadByte#4 set gPayloadBytes := gPayloadBytes + ite($r1 == nil, 1, 0)
+  at return requires verdict-block: $r0 == nil ==> ourChecksum == 0 && p.compressedSize == gPayloadBytes && headerLength == actualHeaderLength && offset == p.offset
+  at return requires every-byte-kept: $r0 == nil ==> buf.len == gPayloadBytes
+  ensures payload: err == nil ==> len(p.compressedData) == p.compressedSize
+  loop 0 invariant count: received == buf.len && buf.len == gPayloadBytes && buf.len >= 0 && 0 <= ourChecksum && ourChecksum < 256
+  loop 1 invariant count: received == buf.len && buf.len == gPayloadBytes && buf.len >= 0 && 0 <= ourChecksum && ourChecksum < 256
 
 func fbb.(*Session).writeCompressed(s, rw, p) (err)
   props C03 C17
   requires sess: SessOK(s) && rw != nil && p != nil
 
+# the answer line: "FS " + exactly one byte per received proposal, that byte being the
+# proposal's answer; without a handler everything is deferred
 func fbb.(*Session).writeProposalsAnswer(s, rw, proposals) (nAccepted, err)
-  props C03
+  props C03 C01 C05
   requires sess: SessOK(s) && rw != nil
   requires props: forall k :: 0 <= k && k < len(proposals) ==> proposals[k] != nil
+  allocbound len(proposals)
+  call fmt.Fprintf requires answer-line: $1 == "FS %s\r" && len($2) == 1 && len(unbox($2[0])) == len(proposals) && (forall k :: 0 <= k && k < len(proposals) ==> unbox($2[0])[k] == proposals[k].answer)
+  ensures no-handler: s.h == nil ==> forall k :: 0 <= k && k < len(proposals) ==> proposals[k].answer == '='
+  ensures frame: forall k :: 0 <= k && k < len(proposals) ==> proposals[k] != nil
+  loop 0 invariant unanswered: (forall j :: 0 <= j && j < len(unanswered) ==> 0 <= unanswered[j] && unanswered[j] < len(proposals)) && (s.h == nil ==> len(unanswered) == 0) && len(unanswered) <= $idx + 1
+  loop 0 invariant deferred: s.h == nil ==> forall k :: 0 <= k && k <= $idx ==> proposals[k].answer == '='
+  loop 0 invariant props: forall k :: 0 <= k && k < len(proposals) ==> proposals[k] != nil
+  loop 1 invariant no-handler: s.h == nil ==> forall k :: 0 <= k && k < len(proposals) ==> proposals[k].answer == '='
+  loop 1 invariant unanswered: (forall j :: 0 <= j && j < len(unanswered) ==> 0 <= unanswered[j] && unanswered[j] < len(proposals)) && (forall k :: 0 <= k && k < len(proposals) ==> proposals[k] != nil) && len(check) == $idx + 1
+  loop 2 invariant no-handler: s.h == nil ==> forall k :: 0 <= k && k < len(proposals) ==> proposals[k].answer == '='
+  loop 2 invariant unanswered: (forall j :: 0 <= j && j < len(unanswered) ==> 0 <= unanswered[j] && unanswered[j] < len(proposals)) && (forall k :: 0 <= k && k < len(proposals) ==> proposals[k] != nil) && len(answers) == len(check) && len(check) == len(unanswered)
+  loop 3 invariant no-handler: s.h == nil ==> forall k :: 0 <= k && k < len(proposals) ==> proposals[k].answer == '='
+  loop 3 invariant unanswered: (forall j :: 0 <= j && j < len(unanswered) ==> 0 <= unanswered[j] && unanswered[j] < len(proposals)) && (forall k :: 0 <= k && k < len(proposals) ==> proposals[k] != nil) && (len(unanswered) > 0 ==> s.h != nil)
+  loop 4 invariant no-handler: s.h == nil ==> forall k :: 0 <= k && k < len(proposals) ==> proposals[k].answer == '='
+  loop 4 invariant answers: len(answers) == len(proposals) && (forall k :: 0 <= k && k < len(proposals) ==> proposals[k] != nil) && (forall k :: 0 <= k && k <= $idx ==> answers[k] == proposals[k].answer)
+
+# handleInbound: C04 deliver-after-verdicts, C02 inbound-error-stops, C01 inbound-deliver
+#   a message reaches ProcessInbound only if it was decoded without error (which
+#   includes the CRC/size verdict) from the proposal whose framed transfer was just
+#   received with every block verdict; only accepted proposals are transferred; after
+#   the first error nothing more is processed and the error is returned; a MID is
+#   appended to Received iff its message was processed without error.
+ghost var gXferOK *Proposal
+ghost var gMsg *Message
+ghost var gMsgOf *Proposal
+ghost var gFailed bool
+ghost var gProcessedOK *Proposal
 
 func fbb.(*Session).handleInbound(s, rw) (quitReceived, err)
-  props C03
+  props C03 C04 C02 C01
   requires sess: SessOK(s) && rw != nil
+  call fbb.(*Session).readCompressed requires accepted-only: $2 != nil && $2.answer == '+'
+  call fbb.(*Session).readCompressed requires no-prior-error: !gFailed
+  call fbb.(*Session).readCompressed set gXferOK := ite($r0 == nil, $2, nil)
+  call fbb.(*Session).readCompressed set gFailed := gFailed || $r0 != nil
+  call fbb.(*Proposal).Message requires after-verified-transfer: $0 != nil && $0 == gXferOK && !gFailed
+  call fbb.(*Proposal).Message set gMsg := ite($r1 == nil, $r0, nil)
+  call fbb.(*Proposal).Message set gMsgOf := $0
+  call fbb.(*Proposal).Message set gFailed := gFailed || $r1 != nil
+  call fbb.MBoxHandler.ProcessInbound requires verified-message: len($1) == 1 && $1[0] == gMsg && gMsg != nil && gMsgOf == gXferOK && !gFailed
+  call fbb.MBoxHandler.ProcessInbound set gProcessedOK := ite($r0 == nil, gMsgOf, nil)
+  call fbb.MBoxHandler.ProcessInbound set gFailed := gFailed || $r0 != nil
+  at append#1 requires received-iff-processed: gProcessedOK != nil && gProcessedOK == prop && !gFailed
+  at return requires error-propagates: gFailed ==> $r1 != nil
+  loop 0 invariant proposals: forall k :: 0 <= k && k < len(proposals) ==> proposals[k] != nil && proposals[k].answer == 0
+  loop 2 invariant delivering: (forall k :: 0 <= k && k < len(proposals) ==> proposals[k] != nil) && !gFailed && (s.h == nil ==> forall k :: 0 <= k && k < len(proposals) ==> proposals[k].answer != '+')
+
+# byte sum of the first n bytes of a string
+smtdef bsum(Arr, Int, Int) Int := (define-fun-rec bsum ((a (Array Int Int)) (o Int) (n Int)) Int (ite (<= n 0) 0 (+ (bsum a o (- n 1)) (select a (+ o (- n 1))))))
+pred BSum(s, n) := bsum(s.$arr, s.$off, n)
+
+# sendOutbound (C01/C05/C02): one block
+#   at most five proposals, each "F<code> <type> <mid> <size> <csize> 0" + CR; the block
+#   checksum printed after "F> " is the two's complement of the sum of all BYTES written
+#   for the proposal lines (CRs included); after the answers: deferred -> SetDeferred and
+#   not in 'sent', rejected -> sent[mid]=true, accepted -> transferred by writeCompressed
+#   and sent[mid]=false only if that returned nil.
+ghost var gWireSum int
+ghost var gXferProp *Proposal
+ghost var gXferErr error
 
 func fbb.(*Session).sendOutbound(s, rw, outbound) (sent, err)
-  props C03
+  props C03 C01 C05 C02
   requires sess: SessOK(s) && rw != nil && s.h != nil
   requires props: forall k :: 0 <= k && k < len(outbound) ==> outbound[k] != nil
+  call fmt.Sprintf#0 requires proposal-line: $0 == "F%c %s %s %d %d %d" && len($1) == 6 && unbox($1[0]) == prop.code && same(unbox($1[1]), prop.msgType) && same(unbox($1[2]), prop.mid) && unbox($1[3]) == prop.size && unbox($1[4]) == prop.compressedSize && unbox($1[5]) == 0
+  call fmt.Fprintf#0 requires line-cr: $1 == "%s\r" && len($2) == 1 && same(unbox($2[0]), sp)
+  call fmt.Fprintf#0 set gWireSum := gWireSum + BSum(sp, len(sp)) + 13
+  call fmt.Fprintf#1 requires block-checksum: $1 == "F> %02X\r" && len($2) == 1 && unbox($2[0]) == mod(0 - gWireSum, 256)
+  call fbb.parseProposalAnswer requires block: same($1, outbound)
+  call fbb.MBoxHandler.SetDeferred requires deferred: prop.answer == '=' && same($1, prop.mid)
+  call fbb.(*Session).writeCompressed requires accepted: $2 == prop && prop.answer == '+'
+  call fbb.(*Session).writeCompressed set gXferProp := $2
+  call fbb.(*Session).writeCompressed set gXferErr := $r0
+  at mapupdate#1 requires rejected: same($1, prop.mid) && prop.answer == '-' && $2
+  at mapupdate#2 requires transferred: same($1, prop.mid) && prop.answer == '+' && !$2 && gXferProp == prop && gXferErr == nil
+  loop 0 invariant block-size: len(outbound) <= 5 && checksum == gWireSum && (forall k :: 0 <= k && k < len(outbound) ==> outbound[k] != nil) && sent != nil
+  loop 1 invariant bytes: 0 <= i && i <= len(sp) && checksum == entry(checksum) + BSum(sp, i)
+  loop 2 invariant block: len(outbound) <= 5 && (forall k :: 0 <= k && k < len(outbound) ==> outbound[k] != nil) && sent != nil
+  loop 3 invariant block: (forall k :: 0 <= k && k < len(outbound) ==> outbound[k] != nil) && sent != nil
 
 func fbb.(*Session).handleOutbound(s, rw) (quitSent, err)
   props C03
